@@ -7,5 +7,6 @@ EXTENDS PTCore
 MCCtor(z) == CASE z = 1 -> {2} [] OTHER -> {}
 MCIso(z) == CASE z = 1 -> {1, 2} [] z = 8 -> {16} [] OTHER -> {}
 MCExtra(z) == CASE z = 8 -> {99} [] OTHER -> {}
+MCNoExtra(z) == {}
 MCIon(z) == CASE z = 1 -> {1} [] z = 8 -> {-2} [] OTHER -> {}
 =============================================================================
